@@ -445,7 +445,7 @@ class Engine:
                     t = (obj.term, v)
                     self.closures[key] = t
                 return t[0]
-        if isinstance(v, (FuncV, BoundV, MethodCallerV, BuiltinV)):
+        if isinstance(v, (FuncV, BoundV, MethodCallerV, BuiltinV, PartialV)):
             key = self._closure_key(v)
             t = self.closures.get(key)
             if t is None:
